@@ -290,6 +290,19 @@ class Obj:
             out["whole"] = c.make_report()
             out["lines"] = "\n".join(c.gen_report_lines())
             return out
+        if consume in ("zip_ab", "zip_ba"):
+            # the requested rendering and its opposite (coloured <-> no_color) are consumed line by line, side by side
+            import itertools
+            mine = self._result(pal, no_color, cc)
+            other = self._result(pal, not no_color, cc)
+            lines = []
+            pairs = itertools.zip_longest(mine, other) if consume == "zip_ab" else itertools.zip_longest(other, mine)
+            for pr in pairs:
+                x = pr[0] if consume == "zip_ab" else pr[1]
+                if x is not None:
+                    lines.append(str(tables.line_text(C, x)))
+            out["lines"] = "\n".join(lines)
+            return out
         if consume in ("whole", "both_wl", "both_lw"):
             res = self._result(pal, no_color, cc)
             if consume == "both_lw":
@@ -299,6 +312,10 @@ class Obj:
                 out["whole"] = str(res)
                 if consume == "both_wl":
                     out["lines"] = "\n".join(str(tables.line_text(C, ln)) for ln in res)
+        elif consume == "lines_kept":
+            # all line objects are collected first and only then turned into text
+            kept = list(self._result(pal, no_color, cc))
+            out["lines"] = "\n".join(str(tables.line_text(C, ln)) for ln in kept)
         else:
             res = self._result(pal, no_color, cc)
             out["lines"] = "\n".join(str(tables.line_text(C, ln)) for ln in res)
